@@ -23,12 +23,17 @@ CONSTANTS Streams,     \* stream names
           StopOnAckFailure,  \* TRUE = as built: the first failing downstream write ends the flush (nothing after it is written,
                              \* no checkpoint is persisted).  FALSE (negative control): the loop carries on with the rest
                              \* of the batch and persists the last written pack of every stream
+          MayStale,          \* the scenario "a task is paused while one of its packs is in flight in the reader" is explored
+          ExitFlushes,       \* TRUE = as built: whenever the write loop of the channel returns, what the batcher still holds is
+                             \* written (deferred ClearMsgs).  FALSE (negative control): the buffered packs are forgotten
           RetryAfterPause    \* FALSE = as built: a failed batch is dropped.  TRUE (negative control): it stays in the batcher
                              \* and the final flush of the ending write loop writes it again after the task was paused
 
 Tasks == {TaskOf[s] : s \in Streams}
 
-VARIABLES late,     \* ghost: a downstream / checkpoint write was issued for a task after its failure pause (same incarnation)
+VARIABLES dead,     \* the write loop of the channel has returned (nothing is consumed any more in this incarnation)
+          lostbuf,  \* ghost: packs that were in the batcher when the write loop returned and were never written
+          late,     \* ghost: a downstream / checkpoint write was issued for a task after its failure pause (same incarnation)
           cur,      \* next pack index to read per stream (registration cursor)
           buf,      \* batcher content: sequence of <<s, k>>
           acked,    \* downstream memory: set of <<s, k>>
@@ -38,19 +43,20 @@ VARIABLES late,     \* ghost: a downstream / checkpoint write was issued for a t
           up,       \* an incarnation is running
           nf, nc,   \* faults / crashes used
           hist
-vars == <<late, cur, buf, acked, ckpt, state, live, up, nf, nc, hist>>
-view == <<late, cur, buf, acked, ckpt, state, live, up, nf, nc>>
+vars == <<dead, lostbuf, late, cur, buf, acked, ckpt, state, live, up, nf, nc, hist>>
+view == <<dead, lostbuf, late, cur, buf, acked, ckpt, state, live, up, nf, nc>>
 
 Init == /\ cur = [s \in Streams |-> 0] /\ buf = <<>> /\ acked = {} /\ ckpt = [s \in Streams |-> 0]
         /\ state = [t \in Tasks |-> "Running"] /\ live = {} /\ up = FALSE /\ nf = 0 /\ nc = 0 /\ hist = <<>>
-        /\ late = FALSE
+        /\ late = FALSE /\ dead = FALSE /\ lostbuf = {}
 
 \* (re)start: every Running task reads again from its persisted checkpoints
 Boot == /\ ~up
         /\ up' = TRUE /\ buf' = <<>>
         /\ live' = {t \in Tasks : state[t] = "Running"}
         /\ cur' = [s \in Streams |-> IF state[TaskOf[s]] = "Running" THEN ckpt[s] ELSE cur[s]]
-        /\ UNCHANGED <<late, acked, ckpt, state, nf, nc>>
+        /\ dead' = FALSE
+        /\ UNCHANGED <<lostbuf, late, acked, ckpt, state, nf, nc>>
         /\ hist' = Append(hist, [op |-> IF hist = <<>> THEN "boot" ELSE "restart"])
 
 \* the visible steps of writing a batch b: one ack per pack, then one checkpoint write per stream
@@ -87,7 +93,8 @@ Flush(b, ord, f, c) ==
         ckpt |-> newCk, paused |-> failTask, crashed |-> crashed, late |-> retried]
 
 Deliver(s, f, c, ord) ==
-    /\ up /\ TaskOf[s] \in live /\ cur[s] < Len(Script[s])
+    /\ up /\ ~dead /\ TaskOf[s] \in live /\ cur[s] < Len(Script[s])
+    /\ UNCHANGED <<dead, lostbuf>>
     /\ LET k == cur[s] + 1
            b == Append(buf, <<s, k>>)
            full == Len(b) >= MaxCount IN
@@ -119,21 +126,43 @@ Deliver(s, f, c, ord) ==
 
 Kill == /\ up /\ nc < MaxCrashes
         /\ up' = FALSE /\ live' = {} /\ nc' = nc + 1 /\ buf' = <<>>
-        /\ UNCHANGED <<late, cur, acked, ckpt, state, nf>>
+        /\ UNCHANGED <<dead, lostbuf, late, cur, acked, ckpt, state, nf>>
         /\ hist' = Append(hist, [op |-> "kill"])
 
-Pause(t) == /\ MayPause /\ up /\ t \in live /\ buf = <<>>
+Pause(t) == /\ MayPause /\ up /\ ~dead /\ t \in live /\ buf = <<>>
             /\ state' = [state EXCEPT ![t] = "Paused"] /\ live' = live \ {t}
-            /\ UNCHANGED <<late, cur, buf, acked, ckpt, up, nf, nc>>
+            /\ UNCHANGED <<dead, lostbuf, late, cur, buf, acked, ckpt, up, nf, nc>>
             /\ hist' = Append(hist, [op |-> "pause", task |-> t])
 
 Resume(t) == /\ up /\ state[t] = "Paused"
              /\ state' = [state EXCEPT ![t] = "Running"] /\ live' = live \cup {t}
              /\ cur' = [s \in Streams |-> IF TaskOf[s] = t THEN ckpt[s] ELSE cur[s]]
-             /\ UNCHANGED <<late, buf, acked, ckpt, up, nf, nc>>
+             /\ UNCHANGED <<dead, lostbuf, late, buf, acked, ckpt, up, nf, nc>>
              /\ hist' = Append(hist, [op |-> "resume", task |-> t])
 
+\* Task t is paused (API) while the next pack of its stream s is in flight in the reader (stamped, not yet handed over);
+\* the pack then reaches the write loop of the channel, which finds its task not running and returns: the final flush
+\* writes what the batcher holds - packs of OTHER tasks that are still running (one downstream write per pack, then the
+\* checkpoints; no fault is injected here) - and nothing is consumed on that channel any more in this incarnation.
+StaleExit(s) ==
+    /\ MayStale /\ up /\ ~dead /\ TaskOf[s] \in live /\ cur[s] < Len(Script[s])
+    /\ Cardinality(live) > 1                 \* another task keeps the target's entity (and the write loops) alive
+    /\ LET t == TaskOf[s]
+           flushed == {<<buf[i][1], buf[i][2]>> : i \in 1..Len(buf)} IN
+       /\ cur' = [cur EXCEPT ![s] = cur[s] + 1]
+       /\ state' = [state EXCEPT ![t] = "Paused"] /\ live' = live \ {t}
+       /\ dead' = TRUE /\ buf' = <<>>
+       /\ IF ExitFlushes
+            THEN /\ acked' = acked \cup flushed
+                 /\ ckpt' = [x \in Streams |-> IF x \in StreamsIn(buf) THEN LastOf(buf, x) ELSE ckpt[x]]
+                 /\ UNCHANGED lostbuf
+            ELSE /\ lostbuf' = lostbuf \cup flushed /\ UNCHANGED <<acked, ckpt>>
+       /\ UNCHANGED <<late, up, nf, nc>>
+       /\ hist' = hist \o << [op |-> "hold", s |-> s, point |-> "presend"], [op |-> "deliver", s |-> s],
+                              [op |-> "pause", task |-> t], [op |-> "release", s |-> s] >>
+
 Next == \/ Boot \/ Kill
+        \/ \E s \in Streams : StaleExit(s)
         \/ \E s \in Streams, f \in 0..(MaxCount + Cardinality(Streams)), c \in 0..(MaxCount + Cardinality(Streams)) :
               \E ord \in UNION {[1..n -> Streams] : n \in 0..Cardinality(Streams)} : Deliver(s, f, c, ord)
         \/ \E t \in Tasks : Pause(t) \/ Resume(t)
@@ -151,6 +180,8 @@ CursorFromCkpt == \A s \in Streams : TaskOf[s] \in live => cur[s] >= ckpt[s] \/ 
 C05 == CkptBehindAcks /\ AtLeastOnce
 \* C06 "stops emitting": nothing is written for a task after its failure pause within the incarnation
 QuietAfterPause == ~late
+\* C14 (end to end): when the channel's write loop shuts down, every pack the batcher still holds is written
+ShutdownFlushes == lostbuf = {}
 
 PlanOut == (Done \/ Len(hist) >= 14) => PrintT("PLAN " \o ToJson(hist))
 =============================================================================
